@@ -144,6 +144,10 @@ def module_resolver(idx: Index, relpath: str):
                 return frozenset(v) if isinstance(v, set) else v
             except Exception:
                 return None
+        from ..index import ModuleInfo
+        if (r is None or (isinstance(r, ModuleInfo) and r.external)) and name in mod.imports and not mod.imports[name].startswith("tangelo"):
+            from ..consteval import Opaque
+            return Opaque(name)                      # an external module or object (numpy, warnings, ...): opaque, identified by its local name
         return None
     return resolve
 
